@@ -128,10 +128,17 @@ func pbString(s string) dagpb.String {
 // lookupAll queries the four lookup entry points; each result is the link
 // string or "" for not-found; errs carries unexpected disagreement text.
 func lookupAll(n datamodel.Node, key string) (res [4]string, err0 error) {
-	get := func(v datamodel.Node, err error) string {
+	get := func(v datamodel.Node, err error) (out string) {
 		if err != nil || v == nil {
 			return ""
 		}
+		// a "found" value that cannot be read (a typed nil inside the
+		// interface) is not a miss
+		defer func() {
+			if p := recover(); p != nil {
+				out = fmt.Sprintf("!found-but-unreadable(%v)", p)
+			}
+		}()
 		l, err := v.AsLink()
 		if err != nil {
 			return "!notlink"
@@ -142,6 +149,11 @@ func lookupAll(n datamodel.Node, key string) (res [4]string, err0 error) {
 	err0 = err
 	res[0] = get(v, err)
 	res[1] = get(n.LookupByNode(basicnode.NewString(key)))
+	// the key as the directory iterators themselves hand it out (a dag-pb
+	// typed string) and as a plain string node: one answer
+	if typed := get(n.LookupByNode(pbString(key))); typed != res[1] {
+		res[1] = fmt.Sprintf("!LookupByNode(basicnode string)=%q but LookupByNode(dagpb string)=%q", res[1], typed)
+	}
 	res[2] = get(n.LookupBySegment(ipld.PathSegmentOfString(key)))
 	if nd, ok := n.(nativeDir); ok {
 		l := nd.Lookup(pbString(key))
